@@ -19,12 +19,12 @@ def create_queue_tables(conn: sqlite3.Connection, table_name: str) -> None:
             message_id TEXT NOT NULL UNIQUE,
             message_type TEXT NOT NULL,
             payload TEXT NOT NULL,
-            deliver_at TEXT NOT NULL DEFAULT (datetime('now', 'utc')),
+            deliver_at TEXT NOT NULL DEFAULT (datetime('now')),
             attempts INTEGER DEFAULT 0,
             max_attempts INTEGER DEFAULT 10,
             locked_until TEXT,
             version INTEGER DEFAULT 0,
-            created_at TEXT DEFAULT (datetime('now', 'utc'))
+            created_at TEXT DEFAULT (datetime('now'))
         )
     """)
     conn.execute(f"""
@@ -52,8 +52,8 @@ def create_queue_tables(conn: sqlite3.Connection, table_name: str) -> None:
             attempts INTEGER,
             error TEXT,
             last_error_at TEXT,
-            created_at TEXT DEFAULT (datetime('now', 'utc')),
-            moved_at TEXT DEFAULT (datetime('now', 'utc'))
+            created_at TEXT DEFAULT (datetime('now')),
+            moved_at TEXT DEFAULT (datetime('now'))
         )
     """)
     conn.execute(f"""
